@@ -68,6 +68,16 @@ def make_server(factory, adapter=None, token=None):
     return app, app.test_client()
 
 
+def _quiet_adapter():
+    # the file adapter print()s "Error: ..." for every state file it cannot read or remove; the checks observe the behaviour instead
+    import sys
+    import BPTK_Py.externalstateadapter.externalStateAdapter  # noqa: F401
+    sys.modules["BPTK_Py.externalstateadapter.externalStateAdapter"].print = lambda *a, **k: None
+
+
+_quiet_adapter()
+
+
 def body(resp):
     txt = resp.get_data(as_text=True)
     try:
